@@ -4,16 +4,17 @@ the real adaptor over the scripted source stream of harness/k1_stream_common.hpp
   TakeUntil         harness/k1_take_until.cpp         coq/Proto/TakeUntilDefs.v         handler 'takeuntil'
   TypeEraseNext     harness/k1_type_erased_next.cpp   coq/Proto/TypeEraseNextDefs.v     handler 'typeerasenext'
 """
-import os, re
+import os, re, json
+import k1
 from k1 import Unit
 
 # Which variant of each model the code of /repo is tied to.  Flip the entry when /repo changes:
 #   stop_immediately: "as_written"  next-op start() reads stream_ after constructing the stop callback
 #                                   (finding 9) AND handle_signal() reads its receiver's stream_ after
 #                                   nextOp_.destruct() (finding "9b")
-#                     "fixed9"      finding 9 repaired (commit 6e8955a), 9b still present   <- current tree
+#                     "fixed9"      finding 9 repaired (commit 6e8955a), 9b still present
 #                     "fixed9b"     only 9b repaired
-#                     "fixed"       both repaired
+#                     "fixed"       both repaired                                        <- current tree
 #   take_until:       "as_written"  trigger_receiver::set_done destroys sourceOp_ (finding 2)
 #                     "fixed"       it destroys triggerOp_ (commit e46f32d)                 <- current tree
 MODEL_VARIANT = {
@@ -44,6 +45,7 @@ class StopImmediately(Unit):
     maxruns = {"quick": 3000, "thorough": 40000}
     nrandom = {"quick": 300, "thorough": 3000}
     variant = VARIANT_SI
+    thorough_cfgs = ("shimasan17",)     # second configuration of the thorough tier (ASan + UBSan under the shim)
 
     def programs(self, tier):
         progs = [("vd", "nostop"), ("ve", "nostop"), ("d", "stop"), ("e", "stop"), ("vd", "stop"), ("vve", "stop")]
@@ -114,3 +116,81 @@ class StopImmediately(Unit):
         if self.variant == "fixed" and f.get("uaf") != "0":
             return "fixed model reports a use-after-destroy on an implementation trace: " + summary
         return None
+
+
+# ------------------------------------------------------------------------------------------------------
+# hook for tools/props/c13.py (and the private tools/props/c13proto_dev.py)
+
+# verdict tag of the direct monitors -> violation key
+TAGS = {
+    "stop_immediately": {
+        "UAF9:": "finding9-start-uses-stream_-after-destruction",
+        "UAF9B:": "finding9b-handle_signal-reads-dead-receiver",
+    },
+}
+
+
+class Keyed:
+    """Check proxy: a monitor failure is reported under a key that names the defect (from the tag the
+    verdict starts with) instead of the generic '<unit>/<program>/monitor'."""
+    def __init__(self, chk):
+        object.__setattr__(self, "_chk", chk)
+    def __getattr__(self, n):
+        return getattr(self._chk, n)
+    def __setattr__(self, n, v):
+        setattr(self._chk, n, v)
+    def violation(self, key, replay_path, no_input=False, text=""):
+        if key.endswith("/monitor"):
+            unit, prog = key.split("/")[0], key.split("/")[-2]
+            m = re.match(r"\s*([A-Z][A-Z0-9-]*:)", text or "")
+            tag = m.group(1) if m else "FAILED:"
+            name = TAGS.get(unit, {}).get(tag) or ("monitor-" + tag.rstrip(":").lower())
+            key = "%s/%s/%s" % (unit, name, prog)
+            try:      # one replay file per (program, tag): k1 names it by program only
+                obj = json.load(open(replay_path))
+                newp = replay_path.replace(".json", "_" + re.sub(r"\W+", "_", tag.rstrip(":")) + ".json")
+                json.dump(obj, open(newp, "w"), indent=1)
+                replay_path = newp
+            except (OSError, ValueError):
+                pass
+        return self._chk.violation(key, replay_path, no_input=no_input, text=text)
+
+
+def units():
+    us = [StopImmediately()]
+    for n in ("TakeUntil", "TypeEraseNext"):
+        if n in globals():
+            us.append(globals()[n]())
+    only = os.environ.get("VERIF_C13_ONLY")       # development: run one unit only
+    if only:
+        us = [u for u in us if u.name == only]
+    return us
+
+
+def trusted_base():
+    return [
+        "E1 units: Print Assumptions closed for every theorem in Properties_C13_stopimm.v / _takeuntil.v / _typeerase.v "
+        "(vm_compute conversions re-checked at Qed)",
+        "E1 units: extraction ExtrOcamlBasic only; ocaml/lockstep.ml, handlers/h_stopimm.ml / h_takeuntil.ml / h_typeerasenext.ml glue",
+        "E1 units: verif_shim.hpp + dsched (serialises real threads, preempts before atomic accesses only: sequential consistency "
+        "and data-race freedom of everything but the named atomics assumed), k1_stream_common.hpp (scripted source stream with "
+        "tracked, poisoned op-states; consumer doing what reduce_stream does inline), the three k1 drivers (compiled -O0 so that "
+        "reads through dead references reach the poisoned storage)",
+        "E1 units, modelled not verified: the stop sources at lock granularity (C03 owns their internals); the scripted sources "
+        "ignore stop requests",
+        "E1 units: model variants tied to the code: tools/units/stream_proto.py MODEL_VARIANT = %r" % (MODEL_VARIANT,)]
+
+
+def run_units(chk):
+    """Runs the three K1 units; in the thorough tier each also under its second configuration."""
+    kchk = Keyed(chk)
+    for u in units():
+        k1.run_unit(kchk, u)
+        if chk.tier != "quick":
+            for cfg2 in getattr(u, "thorough_cfgs", ()):
+                u2 = type(u)()
+                u2.cfg = cfg2
+                u2.name = u.name + "@" + cfg2
+                u2.maxruns = dict(u.maxruns, thorough=max(1000, u.maxruns["thorough"] // 8))
+                u2.nrandom = dict(u.nrandom, thorough=max(100, u.nrandom["thorough"] // 6))
+                k1.run_unit(kchk, u2, key_prefix=u.name)
